@@ -527,3 +527,10 @@ CORPUS += [
     # F56 repaired (re-normalised after the fill): silent
     V("C10", "eq-f56-repaired-renormalised-after-the-fill", _PD_, '            log_p[~logit_mask] = float("-inf")\n', '            log_p[~logit_mask] = float("-inf")\n            log_p = torch.log_softmax(log_p, dim=1)\n', None),
 ]
+CORPUS += [
+    V("C02", "fjsp-flag-cleared-for-operations-still-running", _FJE, 'op_finished = td["job_in_process"] & (curr_ops_end <= td["time"][:, None])', 'op_finished = td["job_in_process"] & (curr_ops_end >= td["time"][:, None])', "C02"),
+]
+CORPUS += [
+    V("C01", "mdcpdp-back-flag-above-the-depot-count", _MD, "        back_flag = (current_node < num_depot) & (", "        back_flag = (current_node > num_depot) & (", "C01.n"),
+    V("C01", "eq-mdcpdp-back-flag-mirrored", _MD, "        back_flag = (current_node < num_depot) & (", "        back_flag = (num_depot > current_node) & (", None),
+]
